@@ -580,7 +580,7 @@ func TestVerifC15RetryReader(t *testing.T) {
 		for buf := 1; buf <= 3; buf++ {
 			for _, sc := range scripts {
 				idx++
-				if !vt.Mine(idx) {
+				if !vt.Mine(idx) || reported {
 					continue
 				}
 				c := c15RetryCase{data, sc, buf}
